@@ -1,6 +1,8 @@
 package main
 
 import (
+	"gfverif/gen"
+
 	"encoding/json"
 	"fmt"
 	"os"
@@ -32,7 +34,40 @@ func init() {
 }
 
 // c08Sampled says which run indices are also executed in a fresh process.
-func c08Sampled(i, stride int) bool { return (i/stride)%25 == 24 }
+func c08Sampled(i, stride int) bool { return (i/stride)%4 == 3 }
+
+// siblingEnv changes every dimension of the environment while keeping what memoisation keys
+// tend to look at first (same decimal symbol, another grouping symbol; another date/time
+// format, timezone, language order, redaction policy).
+func siblingEnv(sc *gen.Scenario) {
+	e := &sc.Env
+	dec, grp := ".", ","
+	if e.NumberFormat != nil {
+		dec, _ = (*e.NumberFormat)["decimal_symbol"].(string)
+		grp, _ = (*e.NumberFormat)["digit_grouping_symbol"].(string)
+	}
+	other := map[string]string{",": "'", "'": " ", " ": ",", ".": " "}[grp]
+	if other == dec || other == "" {
+		other = " "
+	}
+	nf := gen.J{"decimal_symbol": dec, "digit_grouping_symbol": other}
+	e.NumberFormat = &nf
+	e.DateFormat = map[string]string{"YYYY-MM-DD": "DD-MM-YYYY", "DD-MM-YYYY": "MM-DD-YYYY", "MM-DD-YYYY": "YYYY-MM-DD"}[e.DateFormat]
+	e.TimeFormat = map[string]string{"tt:mm": "h:mm aa", "h:mm aa": "tt:mm:ss", "tt:mm:ss": "h:mm:ss aa", "h:mm:ss aa": "tt:mm"}[e.TimeFormat]
+	if e.Timezone == "UTC" {
+		e.Timezone = "Asia/Kathmandu"
+	} else {
+		e.Timezone = "UTC"
+	}
+	if len(e.AllowedLanguages) > 1 {
+		e.AllowedLanguages = append(append([]string{}, e.AllowedLanguages[1:]...), e.AllowedLanguages[0])
+	}
+	if e.DefaultCountry == "US" {
+		e.DefaultCountry = "RW"
+	} else {
+		e.DefaultCountry = "US"
+	}
+}
 
 func c08Run(seed uint64, variant string, vals []uint64) (*world.RunResult, *world.OutputLog) {
 	out := &world.OutputLog{}
@@ -112,6 +147,10 @@ func cmdC08One(args []string) int {
 	var seed uint64
 	fmt.Sscan(args[0], &seed)
 	variant := args[1]
+	if len(args) > 3 && args[3] == "after-sibling" {
+		// an adversarial one-step history: the same tape in a different environment ran first
+		world.RunOne("C08", seed, variant, nil, func(cfg *world.Config) { cfg.MutateScenario = siblingEnv })
+	}
 	_, out := c08Run(seed, variant, nil)
 	b, _ := json.Marshal(out)
 	os.WriteFile(args[2], b, 0644)
@@ -143,12 +182,28 @@ func c08CrossProcess(self, logDir, tier string, seed uint64, merged *WorkerResul
 				results <- result{i, "harness", "fresh process failed: " + err.Error()}
 				return
 			}
-			var a, b world.OutputLog
+			var a, b, c world.OutputLog
 			ab, _ := os.ReadFile(f)
 			bb, _ := os.ReadFile(fresh)
 			json.Unmarshal(ab, &a)
 			json.Unmarshal(bb, &b)
 			label, det := a.FirstDiff(&b)
+			if label == "" {
+				// and once more in a fresh process in which the sibling world ran first
+				sib := filepath.Join(logDir, fmt.Sprintf("sibling-%d.json", i))
+				cmd := exec.Command(self, "c08one", fmt.Sprint(s), world.VariantFor(i), sib, "after-sibling")
+				cmd.Env = append(os.Environ(), "GOMAXPROCS=2")
+				if err := cmd.Run(); err != nil {
+					results <- result{i, "harness", "fresh process failed: " + err.Error()}
+					return
+				}
+				cb, _ := os.ReadFile(sib)
+				json.Unmarshal(cb, &c)
+				if l2, d2 := c.FirstDiff(&b); l2 != "" {
+					results <- result{-i - 1, l2, d2}
+					return
+				}
+			}
 			results <- result{i, label, det}
 		}(f, i)
 	}
@@ -162,14 +217,21 @@ func c08CrossProcess(self, logDir, tier string, seed uint64, merged *WorkerResul
 			merged.HarnessErrors = append(merged.HarnessErrors, r.det)
 			continue
 		}
-		fp := "C08.process/" + world.LabelClass(r.label)
+		oracle, what := "fresh-process-vs-long-lived", "as the first world of a fresh process and as a later world of a long-lived process"
+		fpKind := "C08.process/"
+		if r.i < 0 {
+			r.i = -r.i - 1
+			oracle, what = "fresh-process-vs-after-sibling", "alone in a fresh process and in a fresh process right after its sibling world (the same tape in a different environment)"
+			fpKind = "C08.history/"
+		}
+		fp := fpKind + world.LabelClass(r.label)
 		if k := known.match("C08", fp); k != nil {
 			merged.KnownSeen[k.Fingerprint]++
 			continue
 		}
 		s := runSeed(seed, "C08", tier, r.i)
-		cands = append(cands, Candidate{RunIndex: r.i, Seed: s, Variant: world.VariantFor(r.i), Prop: "C08", Oracle: "fresh-process-vs-long-lived",
-			Fingerprint: fp, Msg: fmt.Sprintf("the same scenario executed as the first world of a fresh process and as a later world of a long-lived process differ at output %s: %s", r.label, r.det)})
+		cands = append(cands, Candidate{RunIndex: r.i, Seed: s, Variant: world.VariantFor(r.i), Prop: "C08", Oracle: oracle,
+			Fingerprint: fp, Msg: fmt.Sprintf("the same scenario executed %s differ at output %s: %s", what, r.label, r.det)})
 	}
 	return cands
 }
@@ -178,6 +240,32 @@ func c08CrossProcess(self, logDir, tier string, seed uint64, merged *WorkerResul
 func c08Replay(rf *ReplayFile, path string, quiet bool) int {
 	if rf.Oracle == "fresh-process-vs-long-lived" {
 		return c08ReplayProcess(rf, path, quiet)
+	}
+	if rf.Oracle == "fresh-process-vs-after-sibling" {
+		self, _ := os.Executable()
+		tmp, _ := os.MkdirTemp("", "gfsim-c08s-")
+		defer os.RemoveAll(tmp)
+		var logs [2]world.OutputLog
+		for k, extra := range [][]string{nil, {"after-sibling"}} {
+			f := filepath.Join(tmp, fmt.Sprintf("o%d.json", k))
+			cmd := exec.Command(self, append([]string{"c08one", fmt.Sprint(rf.Seed), rf.Variant, f}, extra...)...)
+			if err := cmd.Run(); err != nil {
+				fmt.Println("fresh process failed:", err)
+				return 2
+			}
+			b, _ := os.ReadFile(f)
+			json.Unmarshal(b, &logs[k])
+		}
+		if label, detail := logs[1].FirstDiff(&logs[0]); label != "" {
+			fmt.Printf("after-sibling vs alone differ at %s: %s\n", label, clipS(detail, 1200))
+			if "C08.history/"+world.LabelClass(label) == rf.Fingerprint {
+				fmt.Printf("VIOLATION property=C08 replay=%s\n", path)
+				return 1
+			}
+			return 2
+		}
+		fmt.Println("not reproduced: the world behaves the same alone and after its sibling")
+		return 0
 	}
 	_, first := c08Run(rf.Seed, rf.Variant, rf.Tape)
 	for rep := 0; rep < 12; rep++ {
